@@ -25,26 +25,19 @@ def farthest_rule(cx):
     b = cx.fn('geom2::polyline2::farthest_point_direction_distance')
     if not b:
         return
-    r = cx.retval(b)
-    dag = b.dag()
+    from vpa import comp as CMP, term as T
     V = '(call Polyline::vertices (param line))'
-    PROJ = f'(call Matrix::dot (call Matrix::normalize (field dir (param ray))) (call OPoint::sub (itervar {V}) (field origin (param ray))))'
-    ok = False
-    found = show(r)[:300]
-    lp = [x for x in subterms(r) if x[0] == 'loop']
-    if r[0] == 'phi' and len(lp) == 1 and any(a[0] == 'const' and isinstance(a[1], float) and a[1] < -1e300 for a in r[1:]):
-        car = simplify(dag.carried(lp[0][1], lp[0][2]))
-        found = show(car)[:300]
-        ok = match(f'(call f64::max (anyphi (loop)) {PROJ})', car) is not None or match(f'(call f64::max {PROJ} (anyphi (loop)))', car) is not None
-        from vpa import term as T
+    r = cx.retval(b)
+    rd = CMP.reduction(cx, b, r)
+    ok = rd is not None and rd['op'] == 'max' and not rd['conds'] and rd['src'] is not None and match(V, rd['src']) is not None and \
+        rd['init'] is not None and rd['init'][0] == 'const' and isinstance(rd['init'][1], float) and rd['init'][1] < -1e300 and \
+        match(f'(call Matrix::dot (call Matrix::normalize (field dir (param ray))) (call OPoint::sub (index {V} (itervar (range 0 (len {V})))) (field origin (param ray))))', rd['elem']) is not None
+    if ok and rd['form'] == 'loop':
         okx, why = T.exhaustive_loops(cx, b)
         ok = ok and okx
-    else:
-        # iterator form: vertices().iter().map(|v| n.dot(v - origin)).fold(f64::MIN, f64::max)
-        e = match(f'(call Iterator::fold (call Iterator::map {V} (closure *)) $init (fn f64::max))', r)
-        ok = False   # not met on the pinned tree; extend here when needed
     cx.ob('EXPR', 'farthest_point_direction_distance', ok,
-          'the farthest projection is a running maximum, from the lowest f64, of n.(v - origin) over EVERY vertex of the polyline, n the normalised ray direction', where=b.file, found=found)
+          'the farthest projection is a running maximum, from the lowest f64, of n.(v - origin) over EVERY vertex of the polyline, n the normalised ray direction', where=b.file,
+          found=(f"{rd['form']}: op={rd['op']} init={show(rd['init']) if rd['init'] else None} src={show(rd['src']) if rd['src'] else None} elem={show(rd['elem'])[:200]}" if rd else show(r)[:300]))
 
 
 def run(cx):
@@ -140,9 +133,14 @@ def run(cx):
     b = cx.fn(f'{PL}::max_intersection')
     if b:
         r = cx.retval(b)
-        ok = match('(call Iterator::max_by (call Iterator::collect (call Iterator::map (call *polyline_intersections (param line) (param ray)) (closure *))) (closure *))', r) is not None
-        cls = [cx.retval(c) for c in cx.facts.closures_of(b.name)]
-        ok = ok and any(match('(field 0 (param 2))', v) is not None for v in cls) and any(match('(unwrap (call *::partial_cmp (param a) (param b)))', v) is not None for v in cls)
+        from vpa import comp as CMP
+        LST = '(call *polyline_intersections (param line) (param ray))'
+        rd = CMP.reduction(cx, b, r)
+        ok = rd is not None and rd['op'] == 'max_by' and not rd['conds'] and match(LST, rd['src']) is not None and \
+            match(f'(field 0 (index {LST} (itervar (range 0 (len {LST})))))', rd['elem']) is not None
+        if ok:
+            cb, cr = cx.closure_ret(rd['cmp']) if rd['cmp'] is not None and rd['cmp'][0] == 'closure' else (None, None)
+            ok = cr is not None and match('(unwrap (call *::partial_cmp (param 2) (param 3)))', cr) is not None
         cx.ob('EXPR', 'max_intersection', ok, 'the largest intersection is the maximum parameter of the same exhaustive list', where=b.file, found=r)
     b = cx.fn('geom2::curve2::Curve2::ray_intersections')
     if b:
